@@ -48,6 +48,9 @@ BLOCKS = {
     'scalar-exogenous': ("x = 0.5*x + G + S\nErr_Tolerance = 0.01\nMaxTime = 2\nexogenous\nG = [1., 2., 3.]\nS = 20.", 0.5, ['x'], ['G']),
     # the time step k used only as the source of a lag, next to a user-defined time axis
     'k-as-lag-source': ("t = LT + 1.0\nLT = t(k-1)\nx = 0.5*x + PK + G\nPK = k(k-1)\nErr_Tolerance = 0.01\nMaxTime = 2\nexogenous\nG = [1., 2., 3.]", 0.5, ['x'], ['G']),
+    # a lag chain declared after other lagged variables
+    'lag-chain-after-other-lags': ("y = 0.5*LY + G\nx = 0.25*LC + y\nz = 0.5*L2X + 1\nLY = y(k-1)\nLC = z(k-1)\nLX = x(k-1)\nL2X = LX(k-1)\nErr_Tolerance = 0.01\nMaxTime = 2\n"
+                                   "exogenous\nG = [1., 2., 3.]", 0.0, ['x', 'y', 'z'], ['G']),
     'static-user-time': ("x = 0.5*y + c\ny = 0.5*x + 1\nc = 2.0\nt = 2016.\nErr_Tolerance = 0.01\nMaxTime = 2", 0.5, ['x', 'y'], []),
 }
 
@@ -167,6 +170,11 @@ def case_run(item):
                 for v in nonlagged:
                     if len(getattr(obj, v)) != 3:
                         props.append(z3.BoolVal(False))
+            # a lagged variable the module keeps a series for (it is the source of another lag) holds its source's previous value
+            for v, src_ in parser.Lagged:
+                if hasattr(obj, v) and isinstance(getattr(obj, v), list) and len(getattr(obj, v)) == 3:
+                    for k in (1, 2):
+                        props.append(L(getattr(obj, v)[k]) == L(getattr(obj, src_.strip())[k - 1]))
             # stated constants and initial conditions are the k=0 values
             for v, eqn in parser.Endogenous:
                 try:
@@ -238,6 +246,10 @@ try:
         for v, e in parser.Endogenous:
             r = abs(env[v] - eval(e, {}, env))
             if r > (gain + 1e-9) * tol * (1 + 1e-9) + 1e-12: print('period', k, v, 'residual', r); bad = True
+    for v, s_ in parser.Lagged:
+        if hasattr(obj, v) and isinstance(getattr(obj, v), list) and len(getattr(obj, v)) == 3:
+            for k in (1, 2):
+                if getattr(obj, v)[k] != getattr(obj, s_.strip())[k - 1]: print('stored lag', v, 'at', k, '=', getattr(obj, v)[k], 'but', s_.strip(), 'at', k - 1, '=', getattr(obj, s_.strip())[k - 1]); bad = True
     for v, e in parser.Endogenous:
         try: cval = float(e)
         except ValueError: continue
